@@ -12,7 +12,7 @@ from __future__ import annotations
 from .c18_front import ACCOUNTS, FrontWorld
 from .c18_model import Nfa
 
-USERMAP = {"u1": "alice", "u2": "bob", "u3": "carol", "ghost": "ghost"}
+USERMAP = {"u1": "alice", "u2": "bob", "u3": "carol", "u4": "Dan@Example.COM", "ghost": "ghost"}
 ADDRMAP = {"a1": "10.1.0.1", "a2": "10.1.0.2", "a3": "10.1.0.3"}
 LEVELS = ("fn", "imap", "pop")
 
